@@ -331,7 +331,14 @@ class Hist:
             if ty.name == "string":
                 return isinstance(v, S.MChar)
         if ty.kind == "eig":
-            return isinstance(v, S.MDouble)
+            # a Vector is a column, a Point2/Point3 a 2x1 / 3x1 column; any real double array is a Matrix
+            if not isinstance(v, S.MDouble):
+                return False
+            want = {"Vector": (None, 1), "Point2": (2, 1), "Point3": (3, 1)}.get(ty.name)
+            if want is None:
+                return True
+            m, n = v.dims()
+            return n == want[1] and (want[0] is None or m == want[0])
         if ty.kind == "enum":
             return isinstance(v, S.MEnum)
         if ty.kind == "class":
